@@ -19,6 +19,8 @@ import (
 	"math/rand"
 	"os"
 	"path/filepath"
+	"runtime/debug"
+	"runtime/pprof"
 	"sort"
 	"strings"
 	"time"
@@ -169,6 +171,25 @@ type vcase struct {
 
 func isDeletedSize(s int32) bool { return types.Size(s).IsDeleted() }
 
+// Writing the case file costs an open(O_TRUNC)+write+close; for the tens of thousands of tiny enumerated
+// sequences it is written for every 32nd only. A panic inside a case is still attributed to the exact
+// case through recover (guard); only an unrecoverable runtime fatal error falls back to the last logged one.
+var caseSeq int
+
+func logCase(c interface{}, small bool) {
+	caseSeq++
+	if !small || caseSeq%32 == 1 {
+		r.Case(c)
+	}
+}
+
+func guard(c interface{}, level string) {
+	if p := recover(); p != nil {
+		r.Violation(lib.Sig{"op": "any", "class": "panic", "level": level, "build": build},
+			map[string]interface{}{"msg": fmt.Sprint(p), "stack": string(debug.Stack()), "case": c})
+	}
+}
+
 // aliasVictim: a stored key k' != key with key-k' a positive multiple of 2^32 (the CompactSection key space is
 // uint32 relative to the section start). Measurement for the signature only.
 func aliasVictim(ref refMap, key uint64) (uint64, bool) {
@@ -269,8 +290,9 @@ func checkGet(level, impl string, got func(uint64) (int64, int32, bool), ref ref
 	return true
 }
 
-func runValueCase(c vcase) bool {
-	r.Case(c)
+func runValueCase(c vcase) (res bool) {
+	logCase(c, len(c.Ops) <= 8)
+	defer guard(c, "valuemap")
 	m := newVmap(c.Impl)
 	defer m.Close()
 	ref := refMap{}
@@ -418,6 +440,7 @@ func enumerate(alpha []op, maxLen int, fn func(seq []int) bool) {
 }
 
 func valueMapPart() {
+	tStart := time.Now()
 	// Prefilled section: keys 1000,1010,...,1000+10*(P-1). Roles of the 4 test keys:
 	//   existing   : present in the sorted values array (in-place update)
 	//   in-window  : absent, lands within the 128-entry look-back window (insertion sort)
@@ -447,7 +470,7 @@ func valueMapPart() {
 	}
 	for _, impl := range []string{"compactmap", "memdb"} {
 		for pass, al := range [][]tmpl{alpha, alphaZ} {
-			maxLen := r.Pick(4, 5)
+			maxLen := r.Pick(3, 5)
 			if pass == 1 {
 				maxLen = r.Pick(3, 4)
 			}
@@ -498,7 +521,8 @@ func valueMapPart() {
 			r.Count("vm_exhaustive_sequences_"+impl, int64(n))
 		}
 	}
-	r.Note(build+".valuemap_exhaustive", fmt.Sprintf("all sequences of <=%d ops (Set/Delete) and <=%d ops (Set/SetSizeZero/Delete) over 4 keys (existing, in-window, overflow, beyond-end) on a section prefilled with %d sparse keys", r.Pick(4, 5), r.Pick(3, 4), P))
+	fmt.Fprintf(os.Stderr, "c05[%s]: valuemap exhaustive done at %.1fs\n", build, time.Since(tStart).Seconds())
+	r.Note(build+".valuemap_exhaustive", fmt.Sprintf("all sequences of <=%d ops (Set/Delete) and <=%d ops (Set/SetSizeZero/Delete) over 4 keys (existing, in-window, overflow, beyond-end) on a section prefilled with %d sparse keys", r.Pick(3, 5), r.Pick(3, 4), P))
 
 	// random long sequences with adversarial key orders
 	nseq, nops := r.Pick(18, 300), r.Pick(3000, 5000)
@@ -526,6 +550,7 @@ func valueMapPart() {
 		}
 	}
 
+	fmt.Fprintf(os.Stderr, "c05[%s]: valuemap random done at %.1fs\n", build, time.Since(tStart).Seconds())
 	// crossing the 100 000-entry section batch
 	ncross := r.Pick(1, 5)
 	for s := 0; s < ncross; s++ {
@@ -617,6 +642,8 @@ func genOps(rng *rand.Rand, gen string, n int, allowZero bool) ([]op, []uint64) 
 	pick := func() uint64 { return keys[rng.Intn(len(keys))] }
 	base := uint64(1 + rng.Intn(1000))
 	cur := base + 50000
+	top := cur + 40000
+	ndesc := 0
 	for len(ops) < n {
 		x := rng.Intn(100)
 		switch {
@@ -626,8 +653,20 @@ func genOps(rng *rand.Rand, gen string, n int, allowZero bool) ([]op, []uint64) 
 				cur += uint64(1 + rng.Intn(5))
 				add(cur, "ascending")
 			case "descending":
-				cur -= uint64(1 + rng.Intn(5))
-				add(cur, "descending")
+				// every key below all section starts opens a new CompactSection (1.3 MB each): a bounded descending
+				// run, then descending inside the covered range (holes left by the first run), which exercises
+				// the look-back window and the overflow list from the other side
+				if ndesc < 40 {
+					ndesc++
+					cur -= uint64(2 + rng.Intn(5))
+					add(cur, "descending")
+				} else {
+					top -= uint64(1 + rng.Intn(3))
+					if top <= cur {
+						top = cur + 40000
+					}
+					add(top, "descending")
+				}
 			case "backjump-small":
 				cur += uint64(2 + rng.Intn(5))
 				if rng.Intn(4) == 0 {
@@ -830,8 +869,9 @@ func nmGet(nm storage.NeedleMapper) func(uint64) (int64, int32, bool) {
 
 var nmDirSeq int
 
-func runNmCase(c nmcase, dir string) bool {
-	r.Case(c)
+func runNmCase(c nmcase, dir string) (res bool) {
+	logCase(c, len(c.Ops) <= 8)
+	defer guard(c, "needlemap")
 	return runNmCaseQuiet(c, dir)
 }
 
@@ -936,6 +976,7 @@ func runNmCaseQuiet(c nmcase, dir string) bool {
 			loader = "metricFromIndexFile"
 		}
 		// lookups: live and reloaded must agree (normalised to live(offset,size) | not-live)
+		differed := map[uint64]bool{}
 		for k := range keys {
 			if ref.get(k).st == 0 {
 				// never inserted: judged against the reference (a foreign entry in either map is reported there)
@@ -951,8 +992,12 @@ func runNmCaseQuiet(c nmcase, dir string) bool {
 			r.Eval(1)
 			if l1 != l2 || (l1 && (o1 != o2 || s1 != s2)) {
 				e := ref.get(k)
+				differed[k] = true
 				sig := lib.Sig{"op": "reload", "class": "lookup-differs", "live_kind": c.Kind, "reload_kind": rk, "level": "needlemap",
 					"input": inputClass(e, ""), "build": build}
+				if l1 && l2 {
+					sig["difference"] = offsetDifference(o2, o1, s2, s1)
+				}
 				if congruent && (c.Kind == "memory" || rk == "memory") {
 					sig["alias"] = aliasTag
 				}
@@ -1003,7 +1048,23 @@ func runNmCaseQuiet(c nmcase, dir string) bool {
 		}
 
 		if rk == "sorted" && len(c.SortedDeletes) > 0 {
-			okAll = sortedDeletes(c, nm2, closeNm2, base2, ref, keys) && okAll // closes nm2
+			// the deletes through the sorted map are judged against the state the sorted map was loaded with:
+			// a copy of the reference in which every key already reported above as "live != reloaded" follows the reloaded map
+			ref2 := refMap{}
+			for k, e := range ref {
+				cp := *e
+				ref2[k] = &cp
+			}
+			for k := range differed {
+				o2, s2, ok2 := nmGet(nm2)(k)
+				e := ref2.get(k)
+				if ok2 && !isDeletedSize(s2) {
+					e.st, e.off, e.size = 1, o2, s2
+				} else if e.st == 1 {
+					e.st = 2
+				}
+			}
+			okAll = sortedDeletes(c, nm2, closeNm2, base2, ref2, keys) && okAll // closes nm2
 		} else {
 			closeNm2()
 		}
@@ -1514,7 +1575,7 @@ func volumePart() {
 		}
 		rng := r.SubRng(fmt.Sprintf("c05-vol-%d", s))
 		withZero := s%2 == 1
-		withSpan := s%5 == 4
+		withSpan := s%3 == 1
 		c := volcase{Part: "volume", Kind: kind, Build: build}
 		base := uint64(1 + rng.Intn(50))
 		var keys []uint64
@@ -1590,6 +1651,7 @@ func volumePart() {
 
 func main() {
 	r = lib.Start("C05", "exploration")
+	debug.SetGCPercent(400) // every CompactSection is a 1.3 MB allocation; the live heap is a few MB
 	r.SetRule("op sequences (Set/Put, Delete, Get, reopen) against (i) CompactMap/MemDb, (ii) NeedleMapper kinds memory/leveldb/sorted over real .idx files, (iii) whole volumes; every lookup compared with a reference map, delete return values with the live size, counters+lookups of the live map with a map freshly loaded from the same .idx; bounded-exhaustive over 4 keys with distinct roles (existing / look-back window / overflow / beyond end; beyond the 2^32 section span) plus seeded random sequences with key orders ascending, descending, back-jumps <=128 and >128, duplicates, 2^32-span, 100000-entry batch crossing; both offset widths. distinct = distinct (build, level, implementation, op sequence); non-trivial = sequence contains at least one insertion")
 	r.Assume("a key counts as 'reported deleted' when Get returns not-found or a size with IsDeleted(); live and reloaded lookups are compared after this normalisation")
 	r.Assume("counter equality live-vs-reloaded is judged only for sequences a Volume can issue (deletes only on keys that are live with size>0); raw NeedleMapper deletes of absent/deleted keys are judged on lookups only")
@@ -1640,6 +1702,12 @@ func main() {
 		r.Finish(0)
 	}
 
+	if pf := os.Getenv("C05_CPUPROFILE"); pf != "" { // developer aid only: profile one process
+		if f, err := os.Create(pf); err == nil {
+			_ = pprof.StartCPUProfile(f)
+			defer pprof.StopCPUProfile()
+		}
+	}
 	// the other offset width runs as a child process at the same time (its counts are merged at the end)
 	childDone := make(chan struct{})
 	isParent := os.Getenv("VERIF_CHILD_OUT") == "" && types.OffsetSize == 4
@@ -1672,6 +1740,7 @@ func main() {
 		}
 	}
 
+	pprof.StopCPUProfile()
 	if isParent {
 		<-childDone
 		if os.Getenv("VERIF_BIN_5B") != "" {
